@@ -171,6 +171,7 @@ def reset_path_state():
     KNOWN_LEN.clear()
     LEN_TERM.clear()
     SLICE_INFO.clear()
+    PACKED_BYTE.clear()
     del LINKS[:]
     del XOR8_FACTS[:]
     del _KEEP[:]
@@ -551,6 +552,8 @@ KNOWN_LEN = {}      # z3 ast id -> python int (exact length of a bytes term)
 _KEEP = []          # keep terms alive so ast ids stay unique
 
 
+LENGTH_AGNOSTIC = set()     # uninterpreted functions whose byte-string arguments they do not constrain in length
+PACKED_BYTE = {}    # z3 ast id of a packed one-byte field -> (code, value term): per path
 SLICE_INFO = {}     # z3 ast id -> (base term, lo Int term, count Int term) for terms created as python slices base[lo:lo+count]
 LEN_TERM = {}       # z3 ast id -> z3 Int term: symbolic length of a bytes term (companion length)
 LINKS = []          # (bytes term, Int term): Length(bytes term) = Int term; drained into the path context, which drops
